@@ -111,7 +111,8 @@ fn instruments() -> IndexedInstruments {
     ])
 }
 
-fn build(enabled: bool) -> (Eng, Vec<RecTx>) {
+/// Histories of odd length run with an event-time engine clock (engine time may go BACK between records).
+fn build(enabled: bool, event_time_clock: bool) -> (Eng, Vec<RecTx>) {
     let ins = instruments();
     let txs: Vec<RecTx> = ins.exchanges().iter().map(|_| RecTx::new(TxMode::Healthy)).collect();
     let map = MultiExchangeTxMap::from_iter(ins.exchanges().iter().zip(txs.iter()).map(|(e, tx)| (e.value, Some(tx.clone()))));
@@ -119,7 +120,8 @@ fn build(enabled: bool) -> (Eng, Vec<RecTx>) {
         .time_engine_start(fixtures::t0())
         .trading_state(if enabled { TradingState::Enabled } else { TradingState::Disabled })
         .build();
-    (Engine::new(TestClock::new(fixtures::t0()), state, map, ScriptStrategy::default(), ScriptRisk::default()), txs)
+    let clock = if event_time_clock { TestClock::following_events(fixtures::t0()) } else { TestClock::new(fixtures::t0()) };
+    (Engine::new(clock, state, map, ScriptStrategy::default(), ScriptRisk::default()), txs)
 }
 
 #[derive(Debug, Clone, Serialize, Deserialize, PartialEq)]
@@ -362,13 +364,14 @@ fn check_tick(tick: &Tick, expect_seq: u64, ev: &EngineEvent, idx: usize) -> Res
 /// before the snapshot is taken. `fault` optionally perturbs the recorded stream afterwards.
 fn run_stepwise(enabled: bool, events: &[Ev], snap_at: usize, fault_stage: bool) -> Result<Outcome, V> {
     let ins = instruments();
-    let (mut engine, txs) = build(enabled);
+    let (mut engine, txs) = build(enabled, events.len() % 2 == 1);
     let mut out = Outcome { steps: 0, checks: 0, cells: vec!["driver:process_with_audit"], sent: 0, account_items: 0, market_items: 0 };
     let mut snapshot: Option<AuditTick<St>> = None;
     let mut replica: Option<StateReplicaManager<St, std::vec::IntoIter<Tick>>> = None;
     let mut ticks: Vec<Tick> = vec![];
     let mut states: Vec<St> = vec![];
     let mut last_seq = 0u64;
+    let mut last_time: Option<chrono::DateTime<chrono::Utc>> = None;
     let mut processed = 0usize;
 
     for (idx, ev) in events.iter().enumerate() {
@@ -409,6 +412,10 @@ fn run_stepwise(enabled: bool, events: &[Ev], snap_at: usize, fault_stage: bool)
         out.checks += 3;
         check_tick(&tick, last_seq + 1, &ee, idx)?;
         last_seq += 1;
+        if last_time.map(|t| tick.context.time < t).unwrap_or(false) {
+            out.cells.push("engine_time_went_back_between_two_records");
+        }
+        last_time = Some(tick.context.time);
         let rep = replica.as_mut().unwrap();
         rep.updates = vec![tick.clone()].into_iter();
         let res = catch(|| rep.run::<DisabledSeen, DisconnectSeen>()).map_err(|m| ("panic_in_state_replica", format!("record #{idx}: {m}")))?;
@@ -489,7 +496,7 @@ fn run_stepwise(enabled: bool, events: &[Ev], snap_at: usize, fault_stage: bool)
 /// Drivers (ii)/(iii): the engine runners with an audit channel; judged on the collected stream.
 fn run_runner(enabled: bool, events: &[Ev], asynchronous: bool) -> Result<Outcome, V> {
     let ins = instruments();
-    let (mut engine, txs) = build(enabled);
+    let (mut engine, txs) = build(enabled, events.len() % 2 == 1);
     // the runners consume a plain feed: queued strategy batches are pre-loaded in order
     let mut feed: Vec<EngineEvent> = vec![];
     for (idx, ev) in events.iter().enumerate() {
@@ -934,6 +941,7 @@ fn main() {
             "driver:async_run_with_audit",
             "driver:system_builder_audit_enabled",
             "snapshot_taken_mid_history",
+            "engine_time_went_back_between_two_records",
             "terminal:shutdown",
             "terminal:feed_ended",
             "terminal:fatal_error",
